@@ -316,6 +316,44 @@ def _method(body, pattern):
     return m.group(2), '\n'.join(lines)
 
 
+def read_chain(ebody):
+    """multiplicative chain on the local `rate` of an `evaluate` body (BeamCXPEC):
+         rate = 10 ** self._eb.evaluate(log10(energy))          head (not part of the chain)
+         rate *= self._x.evaluate(arg)                          factor, unclamped so far
+         if rate <= 0: return 0.0                               clamps the factor just multiplied
+         return rate  |  return rate * self._x.evaluate(arg)    end (the latter adds an unclamped factor)
+       -> ([(attr, arg, clamped)], every statement touching `rate` understood)"""
+    lines = [l.strip() for l in (ebody or '').splitlines() if l.strip()]
+    if not any(re.match(r'rate\s*(\*=|=)', l) or l.startswith('cdef double rate') for l in lines):
+        return [], True
+    chain, ok, i, ended = [], True, 0, False
+    while i < len(lines):
+        l = lines[i]
+        m = re.fullmatch(r'rate \*= self\.(_\w+)\.evaluate\((.*)\)', l)
+        if ended and 'rate' in l:
+            ok = False
+        elif m:
+            chain.append([m.group(1), m.group(2).strip(), False])
+        elif re.fullmatch(r'if rate <= 0(\.0)?:', l) and i + 1 < len(lines) and re.fullmatch(r'return 0(\.0)?', lines[i + 1]):
+            if chain and not chain[-1][2]:
+                chain[-1][2] = True
+            else:
+                ok = False
+            i += 1
+        elif l == 'return rate':
+            ended = True
+        elif re.fullmatch(r'return rate \* self\.(_\w+)\.evaluate\((.*)\)', l):
+            m = re.fullmatch(r'return rate \* self\.(_\w+)\.evaluate\((.*)\)', l)
+            chain.append([m.group(1), m.group(2).strip(), False])
+            ended = True
+        elif l.startswith('cdef double rate') or re.fullmatch(r'rate = 10 \*\* self\.(_\w+)\.evaluate\(log10\((\w+)\)\)', l):
+            pass
+        elif re.search(r'\brate\b', l):
+            ok = False
+        i += 1
+    return [tuple(c) for c in chain], ok and ended
+
+
 def read_rate_classes():
     classes = []
     alias = {}
@@ -345,10 +383,12 @@ def read_rate_classes():
             for m in re.finditer(r"Interpolator\dDArray\((.*?)'cubic'", ibody, re.S):
                 logs += re.findall(r'([\w.]*log10)\(', m.group(1))
             axis_np = bool(logs) and all(l == 'np.log10' for l in logs)
+            chain, chain_ok = read_chain(ebody)
             is_null = name.startswith('Null') and re.fullmatch(r'\s*return 0\.0\s*', ebody or '') is not None
             classes.append(dict(name=name, base=base, initParams=[p for p, _ in _params(isig or '')],
                                 initSig=_params(isig) if isig is not None else None, evalParams=eparams, guarded=guarded,
-                                photon=photon, extrap=extrap, axisLogNumpy=axis_np, isNull=is_null))
+                                photon=photon, extrap=extrap, axisLogNumpy=axis_np, isNull=is_null,
+                                chain=chain, chainOk=chain_ok))
     return classes, alias
 
 
@@ -423,9 +463,10 @@ def emit(accs, wl, classes, sigs):
     o.append('')
     o.append('def rateClasses : List RateClassSrc := [')
     o.append(',\n'.join(
-        '  { name := %s, base := %s, initParams := %s, evalParams := %s,\n    guarded := %s, photon := %s, extrap := %s, axisLogNumpy := %s, isNull := %s }' % (
+        '  { name := %s, base := %s, initParams := %s, evalParams := %s,\n    guarded := %s, photon := %s, extrap := %s, axisLogNumpy := %s, isNull := %s,\n    chain := %s, chainOk := %s }' % (
             _s(c['name']), _s(c['base']), _l(c['initParams']), _l(c['evalParams']), _l(c['guarded']), _l(c['photon']),
-            _l(c['extrap'], lambda p: '(%s, %s)' % (_s(p[0]), _s(p[1]))), _b(c['axisLogNumpy']), _b(c['isNull']))
+            _l(c['extrap'], lambda p: '(%s, %s)' % (_s(p[0]), _s(p[1]))), _b(c['axisLogNumpy']), _b(c['isNull']),
+            _l(c['chain'], lambda t: '(%s, %s, %s)' % (_s(t[0]), _s(t[1]), _b(t[2]))), _b(c['chainOk']))
         for c in classes))
     o.append(']')
     o.append('')
